@@ -486,6 +486,18 @@ Definition check_chain (k : list cmd * list nat * trace) : bool :=
       trace_eqb (chain_trace l) obs && forallb level_visible l
   end.
 
+(* C02 across scopes (Model/NestedRunS.v): on chains whose bodies are all in the fragment [okx], CPython's
+   trace vs [run_chain_s] and the instance of theorem C02_chain_sound: every read event of every level
+   is among the alternatives of [seen_nested] *)
+Definition chain_okx (k : list cmd * list nat * trace) : bool :=
+  match k with (bodies, _, _) => forallb okx bodies end.
+Definition check_chain_sound (k : list cmd * list nat * trace) : bool :=
+  match k with
+  | (bodies, ds, obs) =>
+      negb (forallb okx bodies) ||
+      (let l := run_chain_s 4000 [] bodies renv0 (ds ++ zeros) in
+       trace_eqb (chain_trace l) obs && forallb level_sound l)
+  end.
 (* (I) for Model/Nested.v: supp's alternatives at every read of the body [ci] nested in [outers],
    and the E02 sites among its reads *)
 Definition check_nested (k : list lvl * lvl * list (N * list alt) * list N) : bool :=
@@ -510,7 +522,8 @@ def part_d(ctx):
     for k in range(nchain):
         depth = ctx.rng.choice([2, 2, 3, 3, 4])
         names = ctx.rng.choice([pygen.POOL[:3], pygen.POOL[:4], pygen.POOL])
-        g = pygen.Gen(ctx.rng, allow_return=True, exits=True, max_stmts=6, names=names)
+        frag = ctx.rng.random() < 0.5       # half of the chains from the generator of the C02 extension (fragment okx)
+        g = pygen.Gen(ctx.rng, allow_return=True, exits=True, max_stmts=6, names=names, loop_exits_only=frag, full_raise=False)
         bodies, ranges, params = [], [], {}
         top = ctx.rng.choice(['func', 'func', 'module'])    # the outermost body: a function or the module itself
         kinds = ['fun'] + [ctx.rng.choice(['fun', 'fun', 'cls']) for _ in range(depth - 1)]
@@ -588,8 +601,16 @@ def part_d(ctx):
                         'instrumented': code, 'decisions': runs[-1][0], 'trace': runs[-1][1][:12]})
     for code, what, eff in rbad[:3]:
         ctx.violation(what, {'kind': 'harness-D', 'code': code, 'decisions': eff}, found_input=False)
-    bad = ctx.run_cases(rc.IMPORTS + ['Model.Nested', 'Model.NestedRun', 'Model.NestedCls'], NESTED_PRELUDE, 'check_nested', terms, shard=150)
-    bad_r = ctx.run_cases(rc.IMPORTS + ['Model.Nested', 'Model.NestedRun', 'Model.NestedCls'], NESTED_PRELUDE, 'check_chain', rterms, shard=300)
+    bad = ctx.run_cases(rc.IMPORTS + ['Model.Nested', 'Model.NestedRun', 'Model.NestedCls', 'Model.NestedRunS'], NESTED_PRELUDE, 'check_nested', terms, shard=150)
+    bad_r = ctx.run_cases(rc.IMPORTS + ['Model.Nested', 'Model.NestedRun', 'Model.NestedCls', 'Model.NestedRunS'], NESTED_PRELUDE, 'check_chain', rterms, shard=300)
+    outside = ctx.run_cases(rc.IMPORTS + ['Model.Nested', 'Model.NestedRun', 'Model.NestedCls', 'Model.NestedRunS'], NESTED_PRELUDE, 'chain_okx', rterms, shard=300)
+    bad_s = ctx.run_cases(rc.IMPORTS + ['Model.Nested', 'Model.NestedRun', 'Model.NestedCls', 'Model.NestedRunS'], NESTED_PRELUDE, 'check_chain_sound', rterms, shard=300)
+    cov['D_executions_in_fragment_okx'] = len(rterms) - len(outside)
+    cov['D_sound_disagreements'] = len(bad_s)
+    if bad_s:
+        code, eff, log = rmeta[bad_s[0]]
+        ctx.violation('(R) correspondence Model/NestedRunS.v vs CPython (or the instance of C01_chain_sound) no longer checks on %d executions of chains in the fragment okx' % len(bad_s),
+                      {'kind': 'correspondence-ref-nested-sound', 'theorem': 'run_chain_s semantics / C01_chain_sound', 'code': code, 'decisions': eff, 'trace': log}, found_input=False)
     cov['D_executions'] = len(rterms)
     cov['D_ref_disagreements'] = len(bad_r)
     if bad_r:
